@@ -107,16 +107,8 @@ Section Comparators.
   Definition sort_output (ks : list (bytes * sflag)) (inp : list record) (gs : list bytes) : list record :=
     flat_map (fun g => group_of (sort_keyf ks) g inp) gs ++ spill ks inp.
 
-  Definition check_sort (ks : list (bytes * sflag)) (inp out : list record) : bool :=
-    let keyf := sort_keyf ks in
-    let gs := dkeys keyf out in
-    records_eqb out (sort_output ks inp gs)
-    && (List.length gs =? List.length (dkeys keyf inp))%nat
-    && forallb (fun g => mem g gs) (dkeys keyf inp)
-    && ordered_by (fun g h => less (map snd ks) (head_vals ks inp g) (head_vals ks inp h)) gs.
-
-  (* the documentation's extra claim ("the sort is stable"): groups whose heads compare equal stay in
-     first-appearance order.  Checked separately from the property. *)
+  (* "The sort is stable" (reference-verbs; sort.SliceStable over the group heads, which are in first-appearance
+     order): groups whose heads compare equal under the whole flag chain stay in first-appearance order. *)
   Fixpoint index_of (g : bytes) (l : list bytes) : nat :=
     match l with [] => O | x :: t => if beqb g x then O else S (index_of g t) end.
   Fixpoint stable_by (eqv : bytes -> bytes -> bool) (pos : bytes -> nat) (l : list bytes) : bool :=
@@ -129,11 +121,43 @@ Section Comparators.
     stable_by (fun g h => chain_cmp (map snd ks) (head_vals ks inp g) (head_vals ks inp h) =? 0)
               (fun g => index_of g (dkeys keyf inp)) (dkeys keyf out).
 
+  Definition check_sort (ks : list (bytes * sflag)) (inp out : list record) : bool :=
+    let keyf := sort_keyf ks in
+    let gs := dkeys keyf out in
+    records_eqb out (sort_output ks inp gs)
+    && (List.length gs =? List.length (dkeys keyf inp))%nat
+    && forallb (fun g => mem g gs) (dkeys keyf inp)
+    && ordered_by (fun g h => less (map snd ks) (head_vals ks inp g) (head_vals ks inp h)) gs
+    && check_stable ks inp out.
+
   (* DSL sort(array, flags | function): elements are single-field records (name, value); equal-comparing elements may
      come out in any order, so there is no grouping: permutation + no later element strictly less than an earlier one *)
   Definition field_val (name : bytes) (r : record) : bytes := match get name r with Some v => v | None => [] end.
   Definition check_array_sort (name : bytes) (f : sflag) (inp out : list record) : bool :=
     perm_b inp out && ordered_by (fun r s => flag_cmp f (field_val name r) (field_val name s) <? 0) out.
+
+  (* ---------------------------------------------------------------- top -n k -f x [-g fs] -a [--min]
+     (pkg/transformers/top.go + utils/top_keeper.go).  The keeper's binary-search insertion is not modelled; the
+     checker below is run on the implementation's output.  Records lacking the value field or a group-by field are
+     ignored; groups come out in first-appearance order; of each group the k records with the largest (--min:
+     smallest) value under the numeric collation, best first. *)
+  Definition top_keyf (x : bytes) (fs : list bytes) (r : record) : option bytes :=
+    if has x r then grouping_key fs r else None.
+  Definition top_cmp (domax : bool) (x : bytes) (r s : record) : Z :=
+    let c := num_cmp (field_val x r) (field_val x s) in if domax then c else - c.      (* > 0: r is better than s *)
+  Definition check_top_group (domax : bool) (k : Z) (x : bytes) (G O : list record) : bool :=
+    match msub O G with
+    | None => false
+    | Some rest =>
+      (Z.of_nat (List.length O) =? Z.min k (Z.of_nat (List.length G)))
+      && ordered_by (fun r s => 0 <? top_cmp domax x r s) O            (* no later record strictly better than an earlier one *)
+      && forallb (fun r => forallb (fun o => negb (0 <? top_cmp domax x r o)) O) rest    (* nothing left out is strictly better *)
+    end.
+  Definition check_top (domax : bool) (k : Z) (x : bytes) (fs : list bytes) (inp out : list record) : bool :=
+    let keyf := top_keyf x fs in
+    records_eqb out (flat_map (fun g => group_of keyf g out) (dkeys keyf inp))
+    && forallb (has_key keyf) out
+    && forallb (fun g => check_top_group domax k x (group_of keyf g inp) (group_of keyf g out)) (dkeys keyf inp).
 End Comparators.
 
 (* ------------------------------------------------------------------ github.com/facette/natsort Compare, modelled:
